@@ -115,6 +115,9 @@ let f _id vs =
     let pm = ref ([], []) and ps = ref ([], []) in
     (* (tick, asc after that op) per backend, newest first: for the horizon predicate *)
     let hm = ref [] and hs = ref [] in
+    (* token-following readers through the command: model token, entries consumed, still in sync *)
+    let tokm = ref O and toks = ref O and consm = ref 0 and conss = ref 0 in
+    let syncm = ref false and syncs = ref false in
     List.iteri (fun i opv ->
       match as_list opv with
       | [I "0"; mode; od; om; tick; fault; dels; wrs; om_v; os_v] ->
@@ -276,11 +279,52 @@ let f _id vs =
            if prop_c15 && o.asc <> expect !hs then
              a.props <- Printf.sprintf "step %d sqlite: horizon read returned %s, entries older than the horizon are %s" i (show_l show_c o.asc) (show_l show_c (expect !hs)) :: a.props
          | None -> ())
+      | [I "2"; now; h; ty; ps; poll; om_v; os_v] ->
+        let nowi = as_int now and hi = as_int h and ps = as_int ps and poll = as_bool poll in
+        let ty = as_bytes ty in
+        let expect hist =
+          let rec go l = match l with
+            | [] -> []
+            | (t, asc) :: rest -> if t + hi <= nowi then asc else go rest in
+          List.filter (has_type_prefix ty) (go hist) in
+        let one name (ov : obs option) (model_read : nat -> string list list * nat) (tok : nat ref)
+            (cons : int ref) (sync : bool ref) hist =
+          if poll && not !sync then ()   (* the read this poll continues was inconclusive *)
+          else begin
+            match ov with
+            | None -> sync := false   (* absent or inconclusive: later polls of this reader are skipped *)
+            | Some o ->
+              let (m, tok') = model_read (if poll then !tok else O) in
+              tok := tok';
+              sync := true;
+              if o.asc <> m then diff "step %d %s: token-following horizon read (page size %d%s) impl=%s model=%s" i name ps
+                  (if poll then ", poll" else "") (show_l show_c o.asc) (show_l show_c m);
+              let consumed = if poll then !cons else 0 in
+              let want = drop consumed (expect hist) in
+              if prop_c15 && o.asc <> want then
+                a.props <- Printf.sprintf "step %d %s: following the continuation token through the ReadChanges command (page size %d%s) returned %s; the changes older than the horizon not yet delivered are %s" i name ps
+                    (if poll then ", poll after further writes" else "") (show_l show_c o.asc) (show_l show_c want) :: a.props;
+              cons := consumed + List.length o.asc
+          end in
+        let fuel n = List.init (n + 2) (fun _ -> as_n now) in
+        one "memory" (parse_obs om_v)
+          (fun t0 -> let (pages, t') = follow_tokens (bytes_to_coq ty) (as_n h) (nat_of_int ps) (fuel (List.length (!ms).changes)) t0 !ms in
+                     (List.map (fun c -> chg_of (obs_change c)) (List.concat pages), t'))
+          tokm consm syncm !hm;
+        (* a real-minute read exists on sqlite only; the memory side is then absent and keeps its token *)
+        one "sqlite" (parse_obs os_v)
+          (fun t0 -> let tb = (!se).en_comm in
+                     let (pages, t') = sql_follow_tokens (bytes_to_coq ty) (as_n h) (nat_of_int ps) (fuel (List.length tb.tl)) t0 tb in
+                     (List.map (fun r -> chg_of (lrow_obs r)) (List.concat pages), t'))
+          toks conss syncs !hs
+      | [I "3"] -> ()
       | _ -> diff "step %d: malformed op" i) ops;
     let cut m = if String.length m > 1500 then String.sub m 0 1500 ^ "..." else m in
     (match List.rev a.diffs, List.rev a.props, List.rev a.knowns with
-     | d :: _, _, _ -> "DIFF " ^ cut d
-     | [], p :: _, _ -> "PROP " ^ cut p
+     (* a failing property predicate (decided on the implementation's answers alone) is the
+        stronger verdict; a model difference comes next *)
+     | _, p :: _, _ -> "PROP " ^ cut p
+     | d :: _, [], _ -> "DIFF " ^ cut d
      | [], [], ks ->
        (* one verdict per history: report the rarest listed finding present *)
        let prio = ["sqlite_ignore_nil_context_conflict"; "memory_partial_key_match";
